@@ -51,7 +51,8 @@ MIN = {'quick': {'distinct': 250,
                                  ('options gf_terminals-alone', 3),
                                  ('directory of gzip sources', 3),
                                  ('directory round trip in two steps', 5),
-                                 ('driver: equals library composition', 150)]
+                                 ('driver: equals library composition', 150),
+                                 ('word with non-ASCII space character', 6)]
                                 + [('driver with ' + o, 8) for o in (
                                     'gf', 'gf_split', 'gf_separator',
                                     'continuous', 'replace_parens',
@@ -342,6 +343,8 @@ def run_case(ctx, case):
             ctx.stratum('encoding ' + e)
     if case.get('gz'):
         ctx.stratum('gzip source')
+    if case.get('unispace'):
+        ctx.stratum('word with non-ASCII space character')
     ctx.case([kind, case.get('src'), case.get('dst'), case.get('via'),
               case['senc'], case['denc'], case.get('dopts'),
               [s['root'] for s in bank]],
@@ -728,6 +731,19 @@ def draw_pair(rng, sfmt, dfmt):
             'gz': sfmt != 'tigerxml' and rng.random() < 0.2,
             'v4': sfmt == 'export' and rng.random() < 0.4}
     case['bank'] = make_bank(rng, cont, lim, paren_ok, sfmt == 'export')
+    if 'export' not in (sfmt, dfmt) and rng.random() < 0.25:
+        # characters that are white space for Unicode but not for these
+        # formats (the export format cannot carry them: its reader splits
+        # fields on any Unicode white space)
+        ws = [w for w in gen.WORDS_UNISPACE
+              if lim != 'latin-1' or all(ord(c) < 256 for c in w)]
+        for s_ in case['bank']:
+            for t_ in gen.tokens_of(s_['root']):
+                if rng.random() < 0.3:
+                    t_['w'] = rng.choice(ws)
+                    if 'lm' in t_ and t_['lm'] not in (None, '--'):
+                        t_['lm'] = t_['w']
+        case['unispace'] = True
     dopts = []
     if dfmt == 'export' and rng.random() < 0.4:
         dopts.append('export_four')
